@@ -34,6 +34,7 @@ from liquid2 import is_template_string_token
 from liquid2 import is_token_type
 from liquid2.exceptions import LiquidSyntaxError
 from liquid2.exceptions import LiquidTypeError
+from liquid2.exceptions import LiquidValueError
 from liquid2.exceptions import UnknownFilterError
 from liquid2.expression import Expression
 from liquid2.limits import int_literal
@@ -1639,7 +1640,7 @@ class LoopExpression(Expression):
             return iter(obj), len(obj)
 
         raise LiquidTypeError(
-            f"expected an iterable at '{self.iterable}', found '{obj}'",
+            f"expected an iterable at '{self.iterable}', found '{_str(obj)}'",
             token=self.token,
         )
 
@@ -2090,7 +2091,7 @@ def _lt(token: TokenT, left: object, right: object) -> bool:
 
 def _contains(token: TokenT, left: object, right: object) -> bool:
     if isinstance(left, str):
-        return str(right) in left
+        return _str(right) in left
     if isinstance(left, Collection):
         return right in left
 
@@ -2110,7 +2111,7 @@ def _to_liquid_string(val: Any, *, auto_escape: bool = False) -> str:
     elif val is None:
         val = ""
     elif isinstance(val, range):
-        val = f"{val.start}..{val.stop - 1}"
+        val = f"{_str(val.start)}..{_str(val.stop - 1)}"
     elif isinstance(val, Sequence):
         if auto_escape:
             val = Markup("").join(
@@ -2123,10 +2124,18 @@ def _to_liquid_string(val: Any, *, auto_escape: bool = False) -> str:
     elif isinstance(val, (Empty, Blank)):
         val = ""
     else:
-        val = str(val)
+        val = _str(val)
 
     if auto_escape:
         val = escape(val)
 
     assert isinstance(val, str)
     return val
+
+
+def _str(val: object) -> str:
+    try:
+        return str(val)
+    except ValueError as err:
+        # An int with more digits than the interpreter's int to str conversion limit.
+        raise LiquidValueError(str(err), token=None) from err
